@@ -22,19 +22,19 @@ CLAIMED = {
              text="Metamorphic testing: a generated fact set (ground atoms with nested terms over named generators) is rendered into a one-shot history and k permuted histories with intermediate closes, duplicated assertions and different generator creation orders; all final models must be isomorphic (generators matched by name) and a second close must change nothing.",
              note="Implementation-vs-implementation comparison; bounded (diverging) fact sets are discarded.", ref="3/C03"),
  "C07": dict(level="exploration", technique="two-phase property testing: trace-derived monotone conditions, homomorphism into the reference free model, resumption compared with the reference chase",
-             text="Phase A records the state at every evaluation of the condition; a monotone condition over public queries that first turns true strictly inside the run is derived from the trace; phase B checks the return-value contract, containment of every stopping/observed state in the reference free model, and that close() after the early return (plus further facts) reaches the free model.",
+             text="Phase A records the state at every evaluation of the condition; a monotone condition over public queries that first turns true strictly inside the run is derived from the trace; phase B checks the return-value contract, containment of every stopping/observed state in the reference free model, a second close_until right after the early return (same condition: must return true at its first evaluation; or a condition that turns true later), and that close() after the early return(s) (plus further facts) reaches the free model.",
              note="Judged only where the reference chase terminates within its bound; conditions range over holds/defined/equal on caller-known ids and their and/or combinations.", ref="3/C07"),
  "C09": dict(level="exploration", technique="generated-program compile testing: repository CLI + real rustc in module and component mode",
-             text="Every generated program (wide profile: arities up to 9, constants, nullary predicates, enums) is compiled by the repository CLI; accepted programs must compile with rustc and link against the runtime in both build modes and run an empty history.",
-             note="Identifier pools avoid Rust keywords and generator-emitted names, as the property states.", ref="3/C09"),
+             text="Every generated program (typed generator, wide profile: arities up to 9, constants, nullary predicates, enums; model programs) is compiled by the repository CLI; accepted programs must compile with rustc and link against the runtime in both build modes and run an empty history. In addition modules derived from the full surface grammar (models with member types/predicates/functions/rules, Mor types, dom/cod, morphism application, enums, named arguments; mostly well-typed by construction) must, when accepted, compile as a library in module mode and pass the component build.",
+             note="Identifier pools avoid Rust keywords and generator-emitted names, as the property states. Two recorded findings (primed symbol names; sibling models sharing a member name) are excluded from generation by construction and demonstrated by replays.", ref="3/C09, 11.2"),
  "C10": dict(level="exploration", technique="mutation-based differential testing: single-defect mutants with by-construction verdicts + reference-free metamorphic relations",
              text="Well-formed generated programs must be accepted; single-defect mutants (19 operators) must be rejected with an error whose class and line belong to the injected defect; alpha-renaming, declaration permutation, re-layout and unused declarations must preserve verdict and class.",
              note="The reference verdict of a mutant is the set of admissible (class, line) pairs given by its operator, not a complete second implementation of the static semantics; fragment without models and casing errors.", ref="3/C10"),
  "C11": dict(level="exploration", technique="mutation-based fuzzing of source text (token, line-ending and byte level) with a diagnostic-grammar oracle",
-             text="Corpus (generated programs, repository theories and error tests) x 1-3 mutations per input; the compiler must exit 0 or 1, and every diagnostic must parse, name a line inside the file and print complete input lines containing it.",
+             text="Corpus (programs of the typed generator, modules derived from the full surface grammar with and without semantic noise, repository theories and error tests) x 1-3 mutations per input; the compiler must exit 0 or 1, and every diagnostic must parse, name a line inside the file and print complete input lines containing it.",
              note="Inputs are valid UTF-8 of at most 8 KB; time-outs are inconclusive. Coverage-guided fuzzing of the compiler was rejected (DESIGN section 6).", ref="3/C11"),
- "C12": dict(level="fault_enumeration", technique="stateful property testing over edit/build histories with injected faults: enumerated kill points (LD_PRELOAD), failing and dying rustc",
-             text="Histories over several versions of a theory with builds killed before their k-th file-system mutation (k enumerated for short histories), failing/dying rustc; after every successful build the complete output and component trees are compared with a clean build; no-op builds must not touch the file system.",
+ "C12": dict(level="fault_enumeration", technique="stateful property testing over edit/build histories with injected faults: enumerated kill points incl. torn writes (LD_PRELOAD), enumerated compiler faults (exit 1 early / after a partial write, death taking the build along, death by a signal alone)",
+             text="Histories over several versions of a theory with builds killed before their k-th file-system mutation or in the middle of the k-th write (k enumerated for short histories), and with every kind of rustc failure on every component; after every successful build the complete output and component trees are compared with a clean build; no-op builds must not touch the file system.",
              note="Crash = process death between two file-system calls of the compiler (and inside rustc's output write); page-cache loss is not modelled. A stand-in for rustc produces byte-comparable libraries.", ref="3/C12"),
  "C13": dict(level="exploration", technique="differential testing of repeated compilations (threads, directories, cwd, environment) with byte comparison",
              text="Each program is compiled 12 times (module/component; repeat; RAYON_NUM_THREADS 1/2/3/16; different absolute and relative directories; different environment) and all generated files and digests are compared byte for byte.",
